@@ -2,9 +2,41 @@
 
 package session
 
+import (
+	"context"
+	"net"
+	"time"
+)
+
 // RunBidirectionalForwardForVerif exposes the unexported half-close aware
 // forwarding helper (cross_node_forward_helper.go) to the C10 scenario. It
 // adds no behaviour.
 func RunBidirectionalForwardForVerif(cfg *BidirectionalForwardConfig) {
 	runBidirectionalForward(cfg)
+}
+
+// NewBridgeTableForVerif returns a SessionManager value that holds nothing but
+// the two tables CrossNodeListener.handleTargetReady/runBridgeForward touch
+// (tunnel bridges, closed tunnels). No background work is started, so the C10
+// scenario can run the listener's per-connection handler over a loopback socket
+// outside the simulation bubble without leaving goroutines behind.
+func NewBridgeTableForVerif() *SessionManager {
+	return &SessionManager{
+		tunnelBridges: make(map[string]*TunnelBridge),
+		closedTunnels: make(map[string]time.Time),
+	}
+}
+
+// RegisterBridgeForVerif puts a bridge into the tunnel table (what
+// handleTunnelOpen does on the source node before the target node connects).
+func (s *SessionManager) RegisterBridgeForVerif(tunnelID string, b *TunnelBridge) {
+	s.bridgeLock.Lock()
+	s.tunnelBridges[tunnelID] = b
+	s.bridgeLock.Unlock()
+}
+
+// HandleConnectionForVerif runs the listener's per-connection handler on an
+// already accepted connection.
+func (l *CrossNodeListener) HandleConnectionForVerif(ctx context.Context, conn net.Conn) {
+	l.handleConnection(ctx, conn)
 }
